@@ -297,3 +297,16 @@ pub fn affine_odd_multiples_entry(k: usize) -> [Fe; 3] {
     let e = &crate::constants::AFFINE_ODD_MULTIPLES_OF_BASEPOINT.0[k];
     [Fe(e.y_plus_x), Fe(e.y_minus_x), Fe(e.xy2d)]
 }
+
+// ------------------------------------------------------------------------
+// Ristretto: the internal Edwards representative
+// ------------------------------------------------------------------------
+
+/// Wrap an Edwards point (which must lie in 2E) as a Ristretto representative.
+pub fn ristretto_from_edwards(p: &EdwardsPoint) -> crate::ristretto::RistrettoPoint {
+    crate::ristretto::RistrettoPoint(*p)
+}
+/// The Edwards point currently representing a Ristretto element.
+pub fn ristretto_as_edwards(p: &crate::ristretto::RistrettoPoint) -> EdwardsPoint {
+    p.0
+}
